@@ -41,10 +41,40 @@ example : (Set.setSort Set.keyCmp [7, 2, 9, 4, 3, 2]).1.Pairwise (Set.Le Set.key
 -- AUDIT (note, no repair needed): the restriction to well-formed items in `set_sort_compare_total_order` is essential.  On raw
 -- `Item`s `set_sort_compare` is NOT a `CmpOK` comparison (two different elements carrying the same `pos` compare `-1` both ways),
 -- so `set_sort_sorted_perm` says nothing about arrays whose positions were not assigned injectively.  `keyCmp` covers element
--- and text items only; the root item (`pos = 0`, alone in its class) and metadata items are outside the model.
+-- and text items only; `set_sort_compare_total_order_with_root` below adds the root item (`pos = 0`); metadata items are outside
+-- the model (`sortCompare` has no metadata branch).
 /-- audit: `set_sort_compare` on unrestricted items violates the antisymmetry axiom of `CmpOK` -/
 theorem set_sort_compare_raw_not_total_order : ¬ Set.CmpOK Set.sortCompare := fun h =>
   absurd ((h.anti ⟨1, 1, .elem⟩ ⟨1, 2, .elem⟩).1 (by decide)) (by decide)
+
+/-- items of a node-set that may contain the root: key `0` is the root item (`pos = 0`, type root), every other key as `keyItem` -/
+def keyItemR (k : Nat) : Set.Item := if k = 0 then ⟨0, 0, .root⟩ else Set.keyItem k
+def keyCmpR (a b : Nat) : Int := Set.sortCompare (keyItemR a) (keyItemR b)
+
+theorem keyCmpR_spec (a b : Nat) : (keyCmpR a b < 0 ↔ a < b) ∧ (keyCmpR a b > 0 ↔ b < a) := by
+  by_cases ha : a = 0 <;> by_cases hb : b = 0
+  · subst ha; subst hb; decide
+  · subst ha
+    have h : keyCmpR 0 b = -1 := by
+      simp [keyCmpR, keyItemR, hb, Set.sortCompare, Set.keyItem]
+    rw [h]; omega
+  · subst hb
+    have h : keyCmpR a 0 = 1 := by
+      simp [keyCmpR, keyItemR, ha, Set.sortCompare, Set.keyItem]
+    rw [h]; omega
+  · have h : keyCmpR a b = Set.keyCmp a b := by simp [keyCmpR, keyItemR, ha, hb, Set.keyCmp]
+    rw [h]; exact ⟨Set.keyCmp_lt a b, Set.keyCmp_gt a b⟩
+
+/-- audit: `set_sort_compare_total_order` extended by the root item, which real node-sets contain (`/ | /a`, `ancestor::node()`) -/
+theorem set_sort_compare_total_order_with_root :
+    Set.CmpOK keyCmpR ∧ ∀ a b, (keyCmpR a b < 0 ↔ a < b) ∧ (keyCmpR a b > 0 ↔ b < a) := by
+  refine ⟨⟨fun a b => ?_, fun a b => ?_, fun a b c => ?_⟩, keyCmpR_spec⟩
+  · rw [(keyCmpR_spec b a).1, (keyCmpR_spec a b).2]
+  · rw [(keyCmpR_spec a b).2, (keyCmpR_spec b a).2]; omega
+  · rw [(keyCmpR_spec a b).2, (keyCmpR_spec b c).2, (keyCmpR_spec a c).2]; omega
+
+/-- non-vacuity (audit): a node-set with the root, two elements and two text nodes -/
+example : (Set.setSort keyCmpR [7, 2, 0, 4, 3]).1 = [0, 2, 3, 4, 7] := by decide
 
 /-! ## Node-set union (`set_sorted_merge`) -/
 
